@@ -29,6 +29,10 @@ HOSTS4 = ["1.2.3.4", "1.2.3.5", "1.2.4.4", "10.0.0.1", "10.1.2.3", "192.168.0.1"
 HOSTS6 = ["::1", "fe80::1", "fe80::2", "2001:db8::1", "2001:db8:1::1"]
 MASKS = ["", "", "", "/8", "/16", "/24", "/31", "/32", "/-8", "/-1", "/0", "/64", "/128", "/-64", "/16/-8",
          "/20", "/12", "/27", "/-12", "/-3", "/9", "/61", "/-61", "/100", "/-20", "/12/-4", "/1"]
+# prefix / suffix lengths beyond 32 bits: the same IPv4 mask, different IPv6 masks
+MASKS6 = ["/33", "/40", "/48", "/56", "/63", "/64", "/65", "/96", "/120", "/127", "/128", "/-33", "/-40", "/-64", "/-100", "/40/-8", "/64/-33", "/32", "/24"]
+# values with doubled quotes outside a quoted value, the empty quoted value, quoted values made of quotes
+QUOTEVALS = ['a""b', 'x""', 'y""""z', 'a""', 'q""r""s', 'x"y', 'x"', '""', '""', '"a""b"', '"x"""', '"x""""y"', '" "']
 TAGKEYS = ["tag", "service", "mark", "generated"]
 TAGS = ["a", "b", "c"]
 PROTOS = ["tcp", "udp", "sctp", "other"]
@@ -155,6 +159,20 @@ def g_host(rng, vars_ok, sub_ok):
     return key + ":" + ",".join(items)
 
 
+def g_hostvars(rng, sub_ok):
+    """two or three host filters on the SAME pair of host variables under different masks (most of them longer than
+    32 bits: equal IPv4 masks, different IPv6 masks), plain or negated, in one conjunct or one disjunction"""
+    key = rng.choice(["chost", "shost", "chost", "shost", "host"])
+    s = (rng.choice(SUBS) + ":") if (sub_ok and rng.random() < 0.4) else ""
+    var = "@" + s + ({"chost": "shost", "shost": "chost"}.get(key, rng.choice(["chost", "shost"])) if not s or rng.random() < 0.7 else rng.choice(["chost", "shost"])) + "@"
+    masks = rng.sample(MASKS6, rng.choice([2, 2, 2, 3])) if rng.random() < 0.85 else [rng.choice(MASKS6), rng.choice(MASKS)]
+    kids = []
+    for m in masks:
+        a = ("atom", key + ":" + var + m)
+        kids.append(("not", a) if rng.random() < 0.5 else a)
+    return (("and" if rng.random() < 0.8 else "or"), kids)
+
+
 def g_proto(rng, vars_ok, sub_ok):
     items = []
     for _ in range(1 if rng.random() < 0.7 else rng.randrange(2, 4)):
@@ -167,6 +185,8 @@ def g_proto(rng, vars_ok, sub_ok):
 
 
 def g_tag(rng):
+    if rng.random() < 0.03:
+        return rng.choice(TAGKEYS[:2]) + ":" + rng.choice(['a""b', 'a""', 'b"c', '"a""b"', '"a"""'])
     n = 1 if rng.random() < 0.75 else 2
     k = rng.choice(TAGKEYS[:2] if rng.random() < 0.8 else TAGKEYS)
     if n == 2 and rng.random() < 0.2:
@@ -178,6 +198,9 @@ def g_data(rng):
     key = rng.choice(["cdata", "sdata", "data", "cdata", "sdata"])
     rx = rng.choice(REGEX[:4] if rng.random() < 0.8 else REGEX)
     conv = rng.choice(CONVS)
+    if rng.random() < 0.07:
+        # written as is: the lexer decides what is a quoted value (only one enclosed in quotes is un-doubled)
+        return key + conv + ":" + rng.choice(QUOTEVALS)
     if " " in rx or '"' in rx or rng.random() < 0.3:
         return key + conv + ':"' + rx.replace('"', '""') + '"'
     return key + conv + ":" + rx
@@ -192,6 +215,8 @@ def g_atom(rng, regime):
              "vars": ["num"] * 4 + ["proto", "host", "time", "time", "tag", "data"],
              "subq": ["num"] * 4 + ["proto", "host", "time", "tag"]}[regime]
     k = rng.choice(kinds)
+    if vars_ok and rng.random() < 0.05:
+        return g_hostvars(rng, sub_ok)
     if k == "num":
         t = g_num(rng, vars_ok, sub_ok)
     elif k == "time":
@@ -692,7 +717,7 @@ def classify(r, m, have_model):
             sum(a != b for a, b in zip(r["impl"], r["sem"])), len(r["sem"]))
     if r.get("impl2") and r["impl2"] != r.get("impl1c"):
         return "impl", "parsing the same text twice gives different meanings"
-    if r["impossible"] and "1" in r["sem"]:
+    if r.get("wf", True) and r["impossible"] and "1" in r["sem"]:
         return "impl", "reported impossible but satisfiable"
     if have_model:
         if m is None:
